@@ -177,6 +177,27 @@ func runC15(ctx *harness.Ctx) {
 		}
 		ctx.Exhaustive("every Unicode scalar value x 3 functions", ctx.ViolationCount() == 0)
 	})
+	ctx.Leg("keywords", func() {
+		if ctx.Shard != 0 {
+			return
+		}
+		words := reflex.ReservedWords()
+		sortStrings(words)
+		for _, w := range words {
+			alt := []byte(strings.ToLower(w))
+			for i := range alt {
+				if i%2 == 1 && alt[i] >= 'a' && alt[i] <= 'z' {
+					alt[i] -= 32
+				}
+			}
+			for _, s := range []string{w, strings.ToLower(w), w[:1] + strings.ToLower(w[1:]), string(alt), w + "_", "_" + w, w + "1", w + " ", w + "x"} {
+				for _, fn := range quoteFns {
+					c15One(ctx, nil, "keywords", fn, s)
+				}
+			}
+		}
+		ctx.Exhaustive(fmt.Sprintf("every reserved keyword of the documentation's table (%d) in 4 letter-case variants and 5 near-miss spellings x 3 functions", len(words)), ctx.ViolationCount() == 0)
+	})
 	parts := []string{"'", "\"", "`", "\\", "\n", "\r", "\t", "\x00", "\x01", "\x7f", "\x80", "\xff", "\xc3", "\xc3\xa9", "é", "日", "\u0085", "\u00a0", " ", "\ufeff", "\U0001F600",
 		"a", "B", "_", "1", " ", "select", "NULL", "x", "''", "\"\"", "'''", "\"\"\"", "\\x", "\\n", "?", ";", "--", "/*", "\xed\xa0\x80", "\xf4\x90\x80\x80", "\U0010FFFF", "\u200b"}
 	ctx.Rapid("random", ctx.Pick(20000, 400000), func(t *rapid.T) {
